@@ -30,6 +30,13 @@ def handleC19 : List String → String
     (match parseStr d, parseNat off with
     | some doc, some o => let (ln, col, txt) := getLineInfo doc o; s!"{ln} {col} {showStr txt}"
     | _, _ => "bad-op")
+  | ["render", d, s, e] =>
+    (match parseStr d, parseNat s, parseNat e with
+    | some doc, some s, some e =>
+      let (ln, col, _) := getLineInfo doc s
+      let (sp, ca) := caretLine doc s e
+      s!"{ln} {col} {sp} {ca}"
+    | _, _, _ => "bad-op")
   | _ => "bad-op"
 
 end Incan.Driver
